@@ -246,6 +246,7 @@ RULES = [
     ("X-BUFFER", "buffering predicates (ordered or aggregate) and recursive expression predicates [shared]", lambda ctx: __import__("extra").buffering_predicates(ctx)),
     ("C11-R6", "clause keywords (order, by, asc, desc, ..) are keywords in every position [shared with C11]", lambda ctx: __import__("extra2").keyword_arm_guards(ctx)),
     ("C13-R2", "date keys are re-parsed by parse_datetime: its interval table, ambiguous local times included [shared with C13]", lambda ctx: __import__("c13").r2(ctx)),
+    ("X-OUTPUT", "the output phase of list_search_results evaluated on its scenario table (drain order, aggregate row, groups, failing output) [shared]", lambda ctx: __import__("lsr").output_phase(ctx)),
 ]
 
 EXPLANATION = (
